@@ -360,6 +360,32 @@ def f_spec_wf_country(a):
     return "1"
 
 
+def f_algo_validate(a):
+    from schwifty import checksum
+    algo = checksum.algorithms[dec(a[0])]
+    return guard(lambda: eb(algo.validate(decl(a[1]), dec(a[2]))))
+
+
+def f_algo_compute(a):
+    from schwifty import checksum
+    algo = checksum.algorithms[dec(a[0])]
+    return guard(lambda: enc(algo.compute(decl(a[1]))))
+
+
+def f_spec_german(a):
+    from schwifty import checksum
+    algo = checksum.algorithms.get("DE:" + dec(a[0]))
+    if algo is None:
+        return "NOSPEC"
+    try:
+        r = algo.validate([dec(a[1])], "")
+        return "1" if r is True else ("0" if r is False else "RETURNED-" + repr(r))
+    except exceptions.InvalidBBANChecksum:
+        return "0"
+    except Exception as e:  # noqa: BLE001
+        return canon_exc(e)
+
+
 def f_validate_national(a):
     return guard(lambda: eb(BBAN(dec(a[0]), dec(a[1])).validate_national_checksum()))
 
